@@ -14,6 +14,9 @@ PRIMS = {
     "os.path.getsize": ("PROBE", (0,), True),
     "os.stat": ("PROBE", (0,), True),
     "os.listdir": ("PROBE", (0,), True),
+    "glob.glob": ("PROBE", (0,), False),
+    "glob.iglob": ("PROBE", (0,), False),
+    "glob.escape": ("OTHER", (), False),
     "os.walk": ("PROBE", (0,), False),
     "os.remove": ("REMOVE", (0,), True),
     "os.unlink": ("REMOVE", (0,), True),
@@ -28,6 +31,10 @@ PRIMS = {
     "os.umask": ("OTHER", (), False),
     "os.getenv": ("OTHER", (), False),
     "fcntl.flock": ("FLOCK", (0,), True),
+    # POSIX record locks: owned by the process (no exclusion between two descriptors / two store objects of one process) and
+    # dropped as soon as the process closes ANY descriptor of the file - not the advisory lock the cid list protocol relies on
+    "fcntl.lockf": ("LOCKF", (0,), True),
+    "fcntl.fcntl": ("LOCKF", (0,), True),
     "atexit.register": ("OTHER", (), False),
     "os.register_at_fork": ("OTHER", (), False),   # hooks: judged by rule C16.g (what the callbacks touch)
     "os.getpid": ("OTHER", (), False),
